@@ -129,19 +129,19 @@ def fault_runs(args):
                 ev_fresh, _ = stepper.run_events(be2, pn, cont_bound, CAP)
                 if all(v[0] in ("i", "b", "a") for _n, v in obs_tagged):
                     conts.append({"method": dict(tm, initial=phase), "input": obs_tagged, "bound": cont_bound,
-                                  "cap": CAP, "fault": [0, 0],
+                                  "cap": CAP, "fault": [0, 0], "mode": "events",
                                   "traces": [{"impl": bname + ":continued", "events": ev_cont},
                                              {"impl": bname + ":fresh", "events": ev_fresh}],
                                   "src": method, "after": [tag, occ]})
             traces.append({"impl": bname, "events": events})
-        fcases.append({"method": tm, "input": inp, "bound": bound, "cap": CAP, "fault": [tag, occ],
+        fcases.append({"method": tm, "input": inp, "bound": bound, "cap": CAP, "fault": [tag, occ], "mode": "events",
                        "traces": traces, "src": method})
         ccases.extend(conts)
     return fcases, ccases
 
 
 def judge(chk, cases, what):
-    tl = [{k: c[k] for k in ("method", "input", "bound", "cap", "fault", "traces")} for c in cases]
+    tl = [{k: c[k] for k in ("method", "input", "bound", "cap", "fault", "mode", "traces")} for c in cases]
     out = tlc.judge_batch("Stepper", tl, chunk=300, tags=("BAD", "END"), chk=chk, jobs=12)
     bad = {t[1]: t[2:] for t in out["BAD"]}
     ended = {t[1]: t[2:] for t in out["END"]}
@@ -237,7 +237,7 @@ def replay(chk, rep):
         print("fault point no longer reached")
     hit = False
     for case in todo:
-        path = tlc.write_cases([{k: case[k] for k in ("method", "input", "bound", "cap", "fault", "traces")}])
+        path = tlc.write_cases([{k: case[k] for k in ("method", "input", "bound", "cap", "fault", "mode", "traces")}])
         res = tlc.run_tlc("Stepper", cfg="StepperStrict", env={"CASES": path}, workers=1)
         chk.add_tlc(res)
         if res.violated:
